@@ -201,3 +201,23 @@ Proof. eexists. split; [vm_compute; reflexivity|]. split; reflexivity. Qed.
 (* a small source for the non-vacuity example of `backup_run` *)
 Definition ex_items : list item := [NewTree 1 0; Other 2 0 [7; 8]%N; NewTree 3 0; EndTree; EndTree].
 Definition ex_tid (es : list entry) : id := N.of_nat (100 + length es).
+
+(* a source in which a file chunk and a tree have the same id (100): the hypotheses of
+   typed_identity are satisfiable, and both blobs end up in packs of their own type *)
+Definition ex_collision_items : list item := [NewTree 1 0; Other 2 0 [100]%N; NewTree 3 0; EndTree; EndTree].
+Definition ex_collision_events : list ev :=
+  [Send Data 100%N; Send Tree 100%N; Send Tree 102%N; Send Tree 101%N;
+   Adv Data 0; Adv Data 0; Adv Data 0; Adv Data 0; Adv Data 0; Flush Data; WriteP Data; IndexP Data;
+   Adv Tree 0; Adv Tree 0; Adv Tree 0; Adv Tree 0; Adv Tree 0;
+   Adv Tree 0; Adv Tree 0; Adv Tree 0; Adv Tree 0; Adv Tree 0;
+   Adv Tree 0; Adv Tree 0; Adv Tree 0; Adv Tree 0; Adv Tree 0; Flush Tree; WriteP Tree; IndexP Tree].
+Lemma typed_identity_inhabited_lemma :
+  exists s r, backup_run ex_tid [] ex_collision_items ex_collision_events s r /\
+              In (Data, 100%N) (r_all r) /\ In (Tree, 100%N) (r_all r) /\
+              idx s = [(Data, [100%N]); (Tree, [100%N; 102%N; 101%N])].
+Proof.
+  eexists. eexists. split.
+  - unfold backup_run. split; [vm_compute; reflexivity|]. split; [apply Permutation_refl|].
+    split; [vm_compute; reflexivity | reflexivity].
+  - cbn. split; [tauto|]. split; [tauto | reflexivity].
+Qed.
